@@ -217,4 +217,11 @@ Definition falsy_rows_example : Prop :=
   snd (inst_row_incl_f Strict Strict true (Some cx) (mk_srow KPlain (CNative (EInt 1)) bad) []) = Err EUndefined.
 
 Lemma falsy_rows_example_holds : falsy_rows_example.
-Proof. vm_compute. repeat constructor. Qed.
+Proof.
+  (* every leaf is closed by vm_compute + reflexivity, which leaves a vm cast in the term: the kernel re-checks it with
+     the same machine at Qed (the earlier `vm_compute. repeat constructor.` made Qed redo the evaluation by plain
+     conversion: 11 minutes and 23 GB) *)
+  unfold falsy_rows_example. split.
+  - repeat (first [apply Forall_nil | apply Forall_cons]); (split; [|split]); vm_compute; reflexivity.
+  - vm_compute. reflexivity.
+Qed.
